@@ -29,9 +29,12 @@ pub enum ROperand {
     Moved,
     /// the relation "w (>> 1)" of a field normalised by wrap_and_sort, moved out with remove_relation
     MovedNormalised,
+    /// "b [!arm64 !i386] <!x y> <z>".parse(): compares EQUAL (lossless Relation's == ignores the order of the architecture
+    /// list) to a relation of one of the initial fields, but is a different value
+    EqualToCurrent,
 }
-pub const ROPERANDS: [ROperand; 8] =
-    [ROperand::Parsed, ROperand::Simple, ROperand::New, ROperand::Built, ROperand::FromLossy, ROperand::ParsedTrailingWs, ROperand::Moved, ROperand::MovedNormalised];
+pub const ROPERANDS: [ROperand; 9] =
+    [ROperand::Parsed, ROperand::Simple, ROperand::New, ROperand::Built, ROperand::FromLossy, ROperand::ParsedTrailingWs, ROperand::Moved, ROperand::MovedNormalised, ROperand::EqualToCurrent];
 
 #[derive(Clone, Copy, Serialize, Deserialize, PartialEq, Debug)]
 pub enum EOperand {
@@ -45,8 +48,11 @@ pub enum EOperand {
     Moved,
     /// Entry::from(Vec<lossy::Relation>)
     FromLossyVec,
+    /// "a:any (<< 2:1.0~rc1) | b [!arm64 !i386] <!x y> <z>".parse(): compares EQUAL to the entry of one of the initial fields
+    /// (== ignores the order of an architecture list) but is a different value
+    EqualToCurrent,
 }
-pub const EOPERANDS: [EOperand; 5] = [EOperand::Parsed, EOperand::FromVec, EOperand::NewPush, EOperand::Moved, EOperand::FromLossyVec];
+pub const EOPERANDS: [EOperand; 6] = [EOperand::Parsed, EOperand::FromVec, EOperand::NewPush, EOperand::Moved, EOperand::FromLossyVec, EOperand::EqualToCurrent];
 
 #[derive(Clone, Copy, Serialize, Deserialize, PartialEq, Debug)]
 pub enum RelEdit {
@@ -187,6 +193,10 @@ fn mk_rel(o: ROperand) -> (ll::Relation, MRel) {
             let e = donor.get_entry(0).unwrap();
             (e.remove_relation(0), MRel { version: Some((">>".into(), "1".into())), ..mrel("w") })
         }
+        ROperand::EqualToCurrent => (
+            ll::Relation::from_str("b [!arm64 !i386] <!x y> <z>").unwrap(),
+            MRel { archs: Some(vec!["!arm64".into(), "!i386".into()]), profiles: vec![vec!["!x".into(), "y".into()], vec!["z".into()]], ..mrel("b") },
+        ),
         ROperand::New => (
             ll::Relation::new("e", Some((VersionConstraint::LessThan, "2:1.0".parse().unwrap()))),
             MRel { version: Some(("<<".into(), "2:1.0".into())), ..mrel("e") },
@@ -230,6 +240,13 @@ fn mk_entry(o: EOperand) -> (ll::Entry, Vec<MRel>) {
             let mut donor = ll::Relations::from_str("k, m | n (<= 3), o").unwrap();
             (donor.remove_entry(1), vec![mrel("m"), MRel { version: Some(("<=".into(), "3".into())), ..mrel("n") }])
         }
+        EOperand::EqualToCurrent => (
+            ll::Entry::from_str("a:any (<< 2:1.0~rc1) | b [!arm64 !i386] <!x y> <z>").unwrap(),
+            vec![
+                MRel { archqual: Some("any".into()), version: Some(("<<".into(), "2:1.0~rc1".into())), ..mrel("a") },
+                MRel { archs: Some(vec!["!arm64".into(), "!i386".into()]), profiles: vec![vec!["!x".into(), "y".into()], vec!["z".into()]], ..mrel("b") },
+            ],
+        ),
         EOperand::FromLossyVec => {
             let mut a = ly::Relation::new();
             a.name = "u".into();
